@@ -140,9 +140,9 @@ Definition show_db (s : state) (d : Z) : string :=
   let db := get_db s d in
   "db" +:+ show_Z d +:+ "{" +:+
   join " " (map (fun k => match db !! k with
-                          | Some e => hex_of_string k +:+ "=" +:+ show_value (e_val e) +:+ "@" +:+ show_dl (e_dl e)
+                          | Some e => hexs k +:+ "=" +:+ show_value (e_val e) +:+ "@" +:+ show_dl (e_dl e)
                           | None => "" end) (sorted_keys db)) +:+
-  "}v[" +:+ join "," (map hex_of_string (get_vol s d)) +:+ "]".
+  "}v[" +:+ join "," (map hexs (get_vol s d)) +:+ "]".
 
 Definition Z_leb_sort (l : list Z) : list Z := sort_by Z.leb l.
 Definition live_dbs (s : state) : list Z :=
